@@ -5,8 +5,8 @@ Everything is plain JSON-able data:
   pos   = {"pre": None|"py"|"cmd", "post": None|"py"|"cmd", "semi": "tight"|"spaced",
            "wrap": None | ["block", kind, depth, unit, sibling] | ["oneline", kind], "cont": None | [boundary, ws],
            "prelude": None | [kind, "top" | "inner"], "tail": None | "comment" (`  # c` after the line),
-           "blank": None | "before" (an empty line in front of the line), "eol": "lf" | "crlf" | "cr" (line ends of the
-           WHOLE program, bare and explicit alike)}
+           "blank": None | "before" (an empty line in front of the line), "eol": "lf" | "crlf" (line ends of the WHOLE
+           program, bare and explicit alike; lone CR is renderable but not enumerated, see c03.py)}
 A prelude is a statement placed BEFORE the bare line that binds every identifier spelled on the line (command words
 included) in a scope that has ENDED when the line is reached (parameters of another function / lambda, names local to
 a function or class body, comprehension variables, an `except ... as` name after its handler, a deleted name): the
@@ -75,10 +75,10 @@ def blocks(thorough):
             dict(id="prelude-s3w2-kf0-kp0-rich", segs=(3, 3), words=2, kf=0, kp=0, rich=True, prelude=True, exec="none"),
             dict(id="prelude-s2w2-kf0-kp1-rich", segs=(1, 2), words=2, kf=0, kp=1, kpmin=1, rich=True, prelude=True, exec="none"),
             dict(id="prelude-s2w2-kf1-kp1", tq=1, segs=(1, 2), words=2, wsel="eq2", kf=1, kfmin=1, kp=1, kpmin=1, prelude=True, exec="none"),
-            dict(id="eol-s2w3-kf1-kp1-layout", segs=(1, 2), words=3, kf=1, kp=1, family="eol", eols=("crlf", "cr"), fields=("cont", "tail", "blank", "pre", "post")),
+            dict(id="eol-s2w3-kf1-kp1-layout", segs=(1, 2), words=3, kf=1, kp=1, family="eol", fields=("cont", "tail", "blank", "pre", "post")),
             dict(id="eol-s2w2-kf1-kp1", tq=1, segs=(1, 2), words=2, kf=1, kp=1, kpmin=1, family="eol", exec="none"),
-            dict(id="eol-s3w2-kf0-kp1", segs=(3, 3), words=2, kf=0, kp=1, family="eol", eols=("crlf", "cr"), exec="none"),
-            dict(id="eol-s2w2-kf0-kp2", segs=(1, 2), words=2, kf=0, kp=2, kpmin=2, family="eol", eols=("crlf", "cr"), exec="none"),
+            dict(id="eol-s3w2-kf0-kp1", segs=(3, 3), words=2, kf=0, kp=1, family="eol", exec="none"),
+            dict(id="eol-s2w2-kf0-kp2", segs=(1, 2), words=2, kf=0, kp=2, kpmin=2, family="eol", exec="none"),
         ]
     return [dict(d, **b) for b in spec]
 
